@@ -80,7 +80,11 @@ def rand_terms(rng, vs, kind, n):
 
 def rand_contract(rng, kind):
     nv = rng.randint(1, 4)
-    vs = gen.VARS[:nv]
+    vs = list(gen.VARS[:nv])
+    if rng.random() < 0.25:
+        # names that look like the exponent part of a number when glued to a coefficient (3e1, 4E3): the printer must keep them apart
+        for j, nm in zip(rng.sample(range(nv), min(nv, rng.randint(1, 2))), ["e1", "E3"]):
+            vs[j] = nm
     ni = rng.randint(0, nv)
     ins, outs = vs[:ni], vs[ni:]
     a = rand_terms(rng, ins, kind, rng.randint(0, 2)) if ins else []
